@@ -536,7 +536,7 @@ class TracklistController:
 
         before = tl_tracks[: start or 0]
         shuffled = tl_tracks[start:end]
-        after = tl_tracks[end or len(tl_tracks) :]
+        after = tl_tracks[end:] if end is not None else []
         random.shuffle(shuffled)
         self._tl_tracks = before + shuffled + after
         self._increase_version()
